@@ -112,7 +112,7 @@ Record rcfg := {
 
 Record cfg := {
   out : path;
-  excl : list path;                (* exclude_dir, with the __post_init__ output_dir appended *)
+  excl : list path;                (* exclude_dir + the __post_init__ output_dir + the final output_dir *)
   graph_dir : option path;
   srcs : list path;
   media : option path;
@@ -122,11 +122,17 @@ Record cfg := {
   page_dir : option path;
   incl_src : bool; graph : bool; search : bool; externalize : bool }.
 
+(* parse_arguments, right after normalise_paths:
+     if proj_data.output_dir not in proj_data.exclude_dir: proj_data.exclude_dir.append(output_dir)
+   (the list so far: exclude_dir with the output_dir that __post_init__ saw appended) *)
+Definition effective_excl (o : path) (base : list path) : list path :=
+  if existsb (path_eqb o) base then base else base ++ [o].
+
 (* ProjectSettings.normalise_paths; [pkg] is the directory of the ford package *)
 Definition normalise_cfg (ln : links) (dir pkg : path) (r : rcfg) : cfg :=
   let np := normalise_path ln dir in
   {| out := np (r_out r);
-     excl := map np (r_exclude_dir r ++ [r_out_meta r]);
+     excl := effective_excl (np (r_out r)) (map np (r_exclude_dir r ++ [r_out_meta r]));
      graph_dir := option_map np (r_graph_dir r);
      srcs := map np (r_src r);
      media := option_map np (r_media r);
